@@ -569,6 +569,9 @@ func pureInvoke(cc *ssa.CallCommon) bool {
 	switch cc.Method.Name() {
 	case "Error", "String", "GetSigners", "GetMsgs", "ValidateBasic", "GetAddress", "GetName", "Logger", "Bytes":
 		return true
+	case "MustMarshal", "Marshal", "MustMarshalJSON", "MarshalJSON":
+		// codec.BinaryCodec / JSONCodec: serialisation reads its argument and writes nothing modelled
+		return strings.Contains(typeKeyFull(cc.Value.Type()), "cosmos-sdk/codec.")
 	}
 	return false
 }
